@@ -6,9 +6,9 @@
          CRoute  d2layouts.DefaultRouter on a hand-built two-object graph     vs [default_route]
          CEnd with [pre]: an end of a real pipeline connection that DefaultRouter / d2grid routed (2 points,
                  rectangular end): the observed end point vs the model's trace of the centre-to-centre segment
-       Numbers are exact dyadic rationals.  The model is evaluated with Go's rounding (halves away from zero) and with
-       halves towards zero: where the two differ the exact value was a tie, float64 error decides in the code, and
-       either answer is accepted (per coordinate).
+       Numbers are exact dyadic rationals.  The model is evaluated with Go's rounding (halves away from zero), with
+       halves towards zero and with both nudged by 1e-7: where they differ the exact value was a tie or within 1e-7
+       of one, float64 error decides in the code, and either answer is accepted (per coordinate).
    (b) monitored hypotheses: 2 a piece of the extent has a negative size; 3 the oracle TraceToShapeBorder returned a
        point farther than 1 px from the outline it was aimed at; 4 DefaultRouter's centre-to-centre segment met
        neither label, icon nor box of the end (the theorem then says the end point is left where it was).
@@ -36,17 +36,26 @@ Definition close_b (t a b : Q) : bool := Qle_bool (Qabs (a - b)) t.
 Definition pt_close (t : Q) (a b : pt) : bool := close_b t (px a) (px b) && close_b t (py a) (py b).
 Definition pts_close (t : Q) : list pt -> list pt -> bool := list_eqb (pt_close t).
 
-Fixpoint mixed_close (t : Q) (up dn impl : list pt) : bool :=
-  match up, dn, impl with
-  | [], [], [] => true
-  | u :: up', d :: dn', i :: impl' =>
-      (close_b t (px u) (px i) || close_b t (px d) (px i)) && (close_b t (py u) (py i) || close_b t (py d) (py i))
-      && mixed_close t up' dn' impl'
-  | _, _, _ => false
+(* the model under several roundings: Go's (halves away from zero), halves towards zero, and both shifted by 1e-7
+   (a float64 product that lands within 1e-7 of k + 1/2 may be rounded either way by the code) *)
+Definition nudge : Q := 1 # 10000000.
+Definition roundings : list (Q -> Q) :=
+  [qround; qround_dn; (fun q => qround (q + nudge)); (fun q => qround (q - nudge))].
+
+(* impl agrees with one of the model outputs, or -- all of the same length -- coordinate by coordinate with some of them *)
+Fixpoint mixed_close (t : Q) (ms : list (list pt)) (impl : list pt) : bool :=
+  match impl with
+  | [] => forallb (fun m => match m with [] => true | _ => false end) ms
+  | i :: impl' =>
+      forallb (fun m => match m with [] => false | _ => true end) ms &&
+      existsb (fun m => match m with u :: _ => close_b t (px u) (px i) | [] => false end) ms &&
+      existsb (fun m => match m with u :: _ => close_b t (py u) (py i) | [] => false end) ms &&
+      mixed_close t (map (@tl pt) ms) impl'
   end.
 
-Definition corr (t : Q) (up dn impl : list pt) : bool :=
-  pts_close t up impl || pts_close t dn impl || mixed_close t up dn impl.
+Definition corr (t : Q) (model : (Q -> Q) -> list pt) (impl : list pt) : bool :=
+  let ms := map model roundings in
+  existsb (fun m => pts_close t m impl) ms || mixed_close t ms impl.
 
 Inductive case :=
 | CSkip
@@ -76,12 +85,12 @@ Definition check_case (c : case) : list N :=
   | CSkip => []
   | CInt b s impl =>
       let ok := box_ok_b b in
-      flag (corr tolc (box_intersections qround b s) (box_intersections qround_dn b s) impl) 1
+      flag (corr tolc (fun r => box_intersections r b s) impl) 1
       ++ flag (implb ok (forallb (near_border_b ((1#2) + tolc) b) impl)) 13
   | CTrace src dst pts impl =>
-      flag (corr tolc (trace_to_shape qround src dst pts) (trace_to_shape qround_dn src dst pts) impl) 1
+      flag (corr tolc (fun r => trace_to_shape r src dst pts) impl) 1
   | CRoute src dst impl =>
-      flag (corr tolc (default_route qround src dst) (default_route qround_dn src dst) impl) 1
+      flag (corr tolc (fun r => default_route r src dst) impl) 1
   | CBorder aimed sd => flag (implb aimed (Qle_bool (Qabs sd) tol)) 3
   | CEnd is_dst n p v rect shape_sds pre =>
       let dims := vis_dims_ok v in
@@ -89,11 +98,9 @@ Definition check_case (c : case) : list N :=
         match pre with
         | Some (o, nb) =>
             let pts := [box_center (e_box o); nb] in
-            let up := trace_side qround is_dst o pts in
-            let dn := trace_side qround_dn is_dst o pts in
-            match snd up with
+            match snd (trace_side qround is_dst o pts) with
             | O => [4%N]
-            | _ => flag (corr tolp (firstn 1 (fst up)) (firstn 1 (fst dn)) [p]) 1
+            | _ => flag (corr tolp (fun r => firstn 1 (fst (trace_side r is_dst o pts))) [p]) 1
             end
         | None => []
         end in
